@@ -62,6 +62,8 @@ namespace pika::verif {
         gac_inc, gac_dec, tm_wait_pred,
         // processing unit suspension
         pu_suspend, pu_resume, select_active_pu,
+        // condition_variable / condition_variable_any (obj = shared data)
+        cva_before_lock, cva_after_user_unlock,
         site_count
     };
     // clang-format on
